@@ -362,14 +362,14 @@ func (in *Interp) freshName(base string) string {
 
 func (in *Interp) input(name Value, kind string, w int) *Term {
 	n := in.inputName(name)
-	v := in.tt.Var(in.freshName(n), BV(w))
+	v := in.newVar(in.freshName(n), BV(w))
 	in.inputs = append(in.inputs, Input{Name: n, Kind: kind, Term: v})
 	return v
 }
 
 func (in *Interp) inputBool(name Value) *Term {
 	n := in.inputName(name)
-	v := in.tt.Var(in.freshName(n), BoolSort)
+	v := in.newVar(in.freshName(n), BoolSort)
 	in.inputs = append(in.inputs, Input{Name: n, Kind: "bool", Term: v})
 	return v
 }
@@ -378,7 +378,7 @@ func (in *Interp) inputBytes(name string, n int) Slice {
 	s := make(Slice, n)
 	for i := 0; i < n; i++ {
 		en := fmt.Sprintf("%s[%d]", name, i)
-		v := in.tt.Var(in.freshName(en), BV(8))
+		v := in.newVar(in.freshName(en), BV(8))
 		in.inputs = append(in.inputs, Input{Name: en, Kind: "u8", Term: v})
 		s[i] = v
 	}
@@ -477,9 +477,17 @@ func (in *Interp) fpBits(f *Term) *Term {
 	if f.op == OBitsF {
 		return f.args[0]
 	}
-	// fresh bits constrained to denote f (NaN payload unconstrained)
-	v := in.tt.Var(in.freshName("fpbits"), BV(f.sort.W))
+	// fresh bits constrained to denote f (NaN payload unconstrained); the
+	// same term gets the same bits on one path (Float64bits is a function)
+	if v, ok := in.fpBitsMemo[f]; ok {
+		return v
+	}
+	v := in.newVar(in.freshName(fmt.Sprintf("fpbits%d", f.sort.W)), BV(f.sort.W)) // width in the name: the same name must not be declared with two sorts
 	in.addPCNoEval(in.tt.Eq(in.tt.BitsToFP(v), f))
+	if in.fpBitsMemo == nil {
+		in.fpBitsMemo = map[*Term]*Term{}
+	}
+	in.fpBitsMemo[f] = v
 	return v
 }
 
@@ -894,4 +902,12 @@ func (in *Interp) merge(fr *frame, closure Value) Value {
 		res = tt.Ite(vals[i].cond, vals[i].val, res)
 	}
 	return res
+}
+
+// newVar creates (or re-uses) a solver variable and registers it as belonging
+// to the current path, so that models are only requested for these.
+func (in *Interp) newVar(name string, sort Sort) *Term {
+	v := in.tt.Var(name, sort)
+	in.pathVars = append(in.pathVars, v)
+	return v
 }
